@@ -7,7 +7,7 @@
 //! panics: exactly one injected panic per run, never a double panic.  `Drop` callbacks only
 //! tick when the thread is not already unwinding.
 
-use std::cell::RefCell;
+use crate::glob::Global;
 
 #[derive(Clone, Copy, PartialEq, Eq, Debug, Hash)]
 #[repr(u8)]
@@ -48,20 +48,14 @@ struct Plan {
     trace: Vec<Cb>,
 }
 
-thread_local! {
-    static P: RefCell<Plan> = RefCell::new(Plan{enabled:false,count:0,arm:None,fired:None,recording:false,trace:Vec::new()});
-    static LAST_PANIC: RefCell<(u64, String)> = RefCell::new((0, String::new()));
-    static CATCH_DEPTH: std::cell::Cell<u32> = const { std::cell::Cell::new(0) };
-}
+static P: Global<Plan> = Global::new(Plan { enabled: false, count: 0, arm: None, fired: None, recording: false, trace: Vec::new() });
+static LAST_PANIC: Global<(u64, String)> = Global::new((0, String::new()));
+static CATCH_DEPTH: Global<u32> = Global::new(0);
 
 #[inline]
 pub fn tick(cb: Cb) {
     let fire = P
-        .try_with(|p| {
-            let mut p = match p.try_borrow_mut() {
-                Ok(p) => p,
-                Err(_) => return None,
-            };
+        .with(|p| {
             if !p.enabled {
                 return None;
             }
@@ -80,9 +74,7 @@ pub fn tick(cb: Cb) {
                 return Some(c);
             }
             None
-        })
-        .ok()
-        .flatten();
+        });
     if let Some(c) = fire {
         std::panic::panic_any(Injected(cb, c));
     }
@@ -91,7 +83,6 @@ pub fn tick(cb: Cb) {
 /// Start counting callbacks; optionally record their kinds; optionally arm a fault at tick k.
 pub fn begin(record: bool, arm_at: Option<u64>) {
     P.with(|p| {
-        let mut p = p.borrow_mut();
         p.enabled = true;
         p.count = 0;
         p.arm = arm_at;
@@ -103,7 +94,6 @@ pub fn begin(record: bool, arm_at: Option<u64>) {
 /// Stop counting. Returns (ticks seen, fired (kind, tick) if the fault fired, recorded trace).
 pub fn end() -> (u64, Option<(Cb, u64)>, Vec<Cb>) {
     P.with(|p| {
-        let mut p = p.borrow_mut();
         p.enabled = false;
         p.arm = None;
         p.recording = false;
@@ -113,12 +103,11 @@ pub fn end() -> (u64, Option<(Cb, u64)>, Vec<Cb>) {
 /// Disarm without stopping the counter (used right after catching the injected panic).
 pub fn disarm() {
     P.with(|p| {
-        let mut p = p.borrow_mut();
         p.arm = None;
     });
 }
 pub fn ticks() -> u64 {
-    P.with(|p| p.borrow().count)
+    P.with(|p| p.count)
 }
 
 /// Install the process-wide panic hook: silent, but it remembers message and location of
@@ -140,22 +129,21 @@ pub fn install_hook() {
             .location()
             .map(|l| format!("{}:{}", l.file(), l.line()))
             .unwrap_or_default();
-        let uncaught = CATCH_DEPTH.try_with(|d| d.get() == 0).unwrap_or(true);
+        let uncaught = CATCH_DEPTH.with(|d| *d == 0);
         if verbose || uncaught || msg.contains("unsafe precondition") || msg.contains("cannot unwind") {
             // std's ub_checks raise a non-unwinding panic that aborts the process: say why on
             // stderr so the orchestrator can attach it to the replay file.
             eprintln!("PANIC-REPORT: {} at {}", msg, loc);
         }
-        let _ = LAST_PANIC.try_with(|c| {
-            if let Ok(mut c) = c.try_borrow_mut() {
-                c.0 += 1;
-                c.1 = format!("{} at {}", msg, loc);
-            }
+        let text = format!("{} at {}", msg, loc);
+        LAST_PANIC.with(|c| {
+            c.0 += 1;
+            c.1 = text;
         });
     }));
 }
 pub fn last_panic() -> (u64, String) {
-    LAST_PANIC.with(|c| c.borrow().clone())
+    LAST_PANIC.with(|c| c.clone())
 }
 
 /// Outcome of running a closure under catch_unwind.
@@ -173,9 +161,9 @@ impl<R> Caught<R> {
 }
 
 pub fn catch<R>(f: impl FnOnce() -> R) -> Caught<R> {
-    CATCH_DEPTH.with(|d| d.set(d.get() + 1));
+    CATCH_DEPTH.with(|d| *d += 1);
     let r = std::panic::catch_unwind(std::panic::AssertUnwindSafe(f));
-    CATCH_DEPTH.with(|d| d.set(d.get().saturating_sub(1)));
+    CATCH_DEPTH.with(|d| *d = d.saturating_sub(1));
     match r {
         Ok(r) => Caught::Ok(r),
         Err(p) => {
